@@ -431,6 +431,7 @@ func TestC14(t *testing.T) {
 		kC14.Run(t, ev, perShard(pick(1200, 150000)))
 		kC14Block.Run(t, ev, perShard(pick(1500, 500000)))
 		kC14Chain.Run(t, ev, perShard(pick(1500, 500000)))
+		runConcurrent(kC14Block, t, ev, perShard(pick(100, 10000)), 6)
 		ev.requireClasses("C14:P%8=0", "C14:P%8=3", "C14:P%8=7", "C14:N*M-high-half-nonzero", "C14:basic-filter",
 			"C14:builder-latched-error", "C14:builder-unset-parameter", "C14:builder-ok")
 	})
